@@ -43,16 +43,25 @@ def known_functions() -> Set[str]:
 
 
 def function_table(trees: Dict[str, ast.Module]) -> List[Tuple[str, Optional[ast.ClassDef], ast.AST, List[ast.stmt]]]:
-    """(key, class, function node, the body list that contains it) for module- and class-level functions."""
+    """(key, class, function node, the body list that contains it) for module- and class-level functions and
+    for functions defined directly in the body of one of those (`outer.<locals>.inner`, class None)."""
     out = []
+
+    def nested(prefix: str, fn: ast.AST) -> None:
+        for s in fn.body:  # type: ignore[attr-defined]
+            if isinstance(s, FuncNode):
+                out.append((f"{prefix}.<locals>.{s.name}", None, s, fn.body))  # type: ignore[attr-defined]
+
     for modname, tree in trees.items():
         for n in tree.body:
             if isinstance(n, FuncNode):
                 out.append((f"{modname}.{n.name}", None, n, tree.body))
+                nested(f"{modname}.{n.name}", n)
             elif isinstance(n, ast.ClassDef):
                 for m in n.body:
                     if isinstance(m, FuncNode):
                         out.append((f"{modname}.{n.name}.{m.name}", n, m, n.body))
+                        nested(f"{modname}.{n.name}.{m.name}", m)
     return out
 
 
@@ -93,6 +102,7 @@ class Helper:
         self.node = node
         self.container = container
         self.name: str = node.name  # type: ignore[attr-defined]
+        self.local = ".<locals>." in key
         decos = [ast.unparse(d) for d in node.decorator_list]  # type: ignore[attr-defined]
         self.static = decos == ["staticmethod"]
         self.plain = decos in ([], ["staticmethod"])
@@ -302,6 +312,8 @@ class Inliner:
         done = left = 0
         for tree in self.trees.values():
             for fn in [n for n in ast.walk(tree) if isinstance(n, FuncNode) and n is not h.node]:
+                if h.local and h.container is not fn.body:
+                    continue  # a local function is only visible in the function that defines it
                 if not any(self._is_call_of(n, h) for n in _own_nodes(fn)):
                     continue
                 for _ in range(40):
